@@ -355,6 +355,9 @@ def _drive(o, fitting, comps, free, data, mode, rng):
     B = C = None
     if mode in ('errs', 'B', 'C'):
         errs = float(10 ** rng.uniform(-3, 2))
+        if rng.random() < 0.4:
+            # a per-pixel vector of 1-sigma errors, as the docstrings allow
+            errs = errs * rng.uniform(0.5, 2.0, len(x))
     if mode in ('B', 'C'):
         C = fitting.Cmatrix(x, y, float(rng.uniform(0.8, 2.5)), float(rng.uniform(0.5, 0.8)), float(rng.uniform(-90, 90)))
         B = fitting.Bmatrix(C)
@@ -362,6 +365,8 @@ def _drive(o, fitting, comps, free, data, mode, rng):
     fitting.lmfit_jacobian(pars, x, y)
     if len(x) > nfree:
         img = fisher.model(comps, *np.indices(data.shape)) * np.where(np.isfinite(data), 1, np.nan)
+        if np.ndim(errs):
+            o.count('cases_with_per_pixel_errs')
         res = fitting.covar_errors(pars, img, errs=errs if errs is not None else 1.0, B=B, C=C if mode == 'C' else None)
         return res
     return None
@@ -394,6 +399,14 @@ def run(case):
                         t['src']['a'] = t['src']['b'] * float(rng.uniform(2.0, 3.5))
                         t['src']['pa'] = float(rng.choice([0.0, 90.0])) + float(rng.uniform(-15, 15))
                         t['src']['pa'] -= 180 if t['src']['pa'] > 90 else 0
+                    if rng.random() < 0.3:
+                        # beam angle quoted near +-180 and a source along it: the fit works at theta ~ +-180 where the
+                        # conversion of err_theta into err_pa can wrap
+                        t['beam'][2] = float(rng.choice([179.6, -179.7, 180.0, 179.95, -180.0, 179.0]))
+                        t['src']['pa'] = float(rng.uniform(-1.5, 1.5))
+                        t['src']['a'] = max(t['src']['a'], 1.8 * t['src']['b'])
+                        t['snr'] = float(rng.uniform(40, 90))
+                        t['flip_dec'] = False
                     if t['docov']:
                         t['src']['a'] = min(t['src']['a'], 9.0 * t['scale'] * 3600)
                         t['src']['b'] = min(t['src']['b'], t['src']['a'])
